@@ -680,6 +680,7 @@ theorem step_all (hs : SlashCodeOk) (hg : GuardCodeOk) (s : State) (op : Op) (ht
   | conf k n e b sg => exact confirm_stake s k n e b sg hi.stake
   | observe n => simp only [step, observe]; repeat' split
                  all_goals first | exact hi.stake | exact stake_same s _ hi.stake rfl rfl rfl rfl
+  | event bs bcs cs obs => exact stake_same s _ hi.stake rfl rfl rfl rfl
   | block dt => exact block_stake hs s dt hi.stake
   | valslash v num den => simp [noValSlash] at hop
 
